@@ -897,6 +897,8 @@ class XPathToken(Token[ta.XPathTokenType]):
                 return 'NaN'
             elif math.isinf(obj):
                 return str(obj).upper()
+            elif not obj and self.parser.version == '1.0':
+                return '0'  # XPath 1.0: positive and negative zero are both converted to '0'
 
             value, _, exponent = str(obj).partition('e')
             if '.' in value:
